@@ -321,6 +321,20 @@ def rebuild_body(ctx, cfg):
             raise Violation("after changing %r on the object (step %d of %r) the rebuilt matrix differs from a fresh object's: %d entries, max abs diff %.3g of scale %.3g" % (
                 e, step, cfg["edits"], int(np.sum(M != fresh)), float(np.max(np.abs(M.astype(float) - fresh.astype(float)))), float(np.max(np.abs(fresh)))))
     compare(ctx, M, cur, what="slope covariance after a rebuild history")
+    # the matrix the builder returned (and keeps as .covariance_matrix) is still that matrix after the object's other
+    # method has used it
+    if cur["n_wfs"] >= 2 and int(np.sum(cur["pupil_masks"][0])) > 0:
+        ret = cm.make_covariance_matrix()
+        before = np.array(ret, copy=True)
+        import warnings
+        with warnings.catch_warnings():
+            warnings.simplefilter("ignore")
+            try:
+                cm.make_tomographic_reconstructor(svd_conditioning=1e-6)
+            except np.linalg.LinAlgError:
+                pass
+        ctx.equal(np.asarray(ret), before, "the covariance matrix returned by the builder was modified by make_tomographic_reconstructor()", nan_ok=True)
+        ctx.equal(np.asarray(cm.covariance_matrix), before, "the object's covariance matrix was modified by make_tomographic_reconstructor()", nan_ok=True)
 
 
 def self_test():
